@@ -125,7 +125,7 @@ Lemma klookup_fixed ex n k d :
   klookup k (keymap_ops_fixed ex n) d =
   if nmem k (keys n) then Some (n_id n) else if nmem k (okeys ex) then None else d.
 Proof.
-  destruct n as [id ent c p v t e]. destruct ex as [[oid oent oc op ov ot oe]|];
+  destruct n as [id ent c p v t e ro rs]. destruct ex as [[oid oent oc op ov ot oe oro ors]|];
     unfold keymap_ops_fixed, del_if_changed, keys, okeys; cbn [option_map n_cons n_p2p n_vrf n_tls n_id nmem].
   - eqb_split; try reflexivity; try congruence.
   - cbn. eqb_split; try reflexivity; try congruence.
@@ -137,7 +137,7 @@ Lemma klookup_faithful_eq_fixed old n k d :
   has_dup (keys n) = false -> exchange old n = false ->
   klookup k (keymap_ops (Some old) n) d = klookup k (keymap_ops_fixed (Some old) n) d.
 Proof.
-  destruct n as [id ent c p v t e]. destruct old as [oid oent oc op ov ot oe].
+  destruct n as [id ent c p v t e ro rs]. destruct old as [oid oent oc op ov ot oe oro ors].
   unfold keymap_ops, keymap_ops_fixed, del_if_changed, keys, exchange;
     cbn [option_map n_cons n_p2p n_vrf n_tls n_id has_dup nmem].
   intros Hd Hx.
